@@ -11,7 +11,7 @@ import ast
 from typing import Dict, List, Optional, Set, Tuple
 
 from ..model import Program, AnalysisError, FuncInfo, ClassInfo, FieldInfo, walk_local, dotted
-from ..report import RuleResult
+from ..report import RuleResult, guard
 from ..astutil import src, site, calls_in, call_name, is_self_attr
 from . import c14
 
@@ -456,6 +456,6 @@ def _stream_lazy(prog):
 def run(prog: Program, tier: str) -> List[RuleResult]:
     from . import c13
 
-    return [strong_ref(prog), weak_wrapper(prog), c14.sg_coherence(prog), c14.idkey(prog), c14.sg_purge_directions(prog), c13.sg_sweep(prog), _stream_lazy(prog),
+    return [guard(lambda: strong_ref(prog)), guard(lambda: weak_wrapper(prog)), guard(lambda: c14.sg_coherence(prog)), guard(lambda: c14.idkey(prog)), guard(lambda: c14.sg_purge_directions(prog)), guard(lambda: c13.sg_sweep(prog)), guard(lambda: _stream_lazy(prog)),
             # an edge whose payload was overwritten leaves its pair in the relation index for good
-            c14.rel_edges(prog), sg_no_raw(prog), _pd_field(prog)]
+            guard(lambda: c14.rel_edges(prog)), guard(lambda: sg_no_raw(prog)), guard(lambda: _pd_field(prog))]
